@@ -292,6 +292,9 @@ func (fe *FuncEnc) merge(sts []*State) *State {
 		missing := false
 		for _, s := range sts {
 			t, ok := s.ghost[n]
+			if !ok && strings.HasPrefix(n, "defer:") {
+				t, ok = "false", true // the defer statement was not executed on that path
+			}
 			if !ok {
 				missing = true
 			}
